@@ -34,8 +34,14 @@ fn html_tokens(chunks_: &[String], exact: bool, bom: bool, profile: bool) -> Vec
     r
 }
 
+thread_local! {
+    /// feed() results (Done / Script / Encoding:label) of the latest html_tree() run
+    static LAST_RESULTS: std::cell::RefCell<Vec<String>> = const { std::cell::RefCell::new(Vec::new()) };
+}
+
 fn html_tree(cfg: &TreeCfg, chunks_: &[String]) -> (String, String, &'static str) {
-    let (dom, _, _) = drive(ModelDom::new(), cfg, chunks_, |_, _, _, _| {});
+    let (dom, results, _) = drive(ModelDom::new(), cfg, chunks_, |_, _, _, _| {});
+    LAST_RESULTS.with(|r| *r.borrow_mut() = results);
     let with_dt = model_canon(&dom, DOC, CanonOpts::default());
     let without = model_canon(&dom, DOC, CanonOpts { doctype: false, ..CanonOpts::default() });
     (with_dt, without, quirks_name(dom.quirks.get()))
@@ -87,12 +93,22 @@ pub fn check(case: &Case, st: &mut Stats) -> Result<(), String> {
             cfg.drop_doctype = false;
             cfg.discard_bom = false;
             let (t0, t0_nodt, q0) = html_tree(&cfg, ch);
+            let r0 = LAST_RESULTS.with(|r| r.borrow().clone());
+            if r0.iter().any(|r| r != "Done") {
+                st.label("feed() suspended (script / encoding indicator)");
+            }
             for (te, be, pr) in [(true, false, false), (false, true, false), (true, true, true), (false, false, true)] {
                 let mut c2 = cfg.clone();
                 c2.tok_exact_errors = te;
                 c2.tb_exact_errors = be;
                 c2.profile = pr;
                 let (t, _, q) = html_tree(&c2, ch);
+                let r = LAST_RESULTS.with(|r| r.borrow().clone());
+                if r != r0 {
+                    return Err(format!(
+                        "the sequence of feed() results changes with tokenizer.exact_errors={te} tree_builder.exact_errors={be} profile={pr}: {r0:?} vs {r:?}"
+                    ));
+                }
                 if t != t0 || q != q0 {
                     return Err(format!(
                         "HTML tree changes with tokenizer.exact_errors={te} tree_builder.exact_errors={be} profile={pr}: {} (quirks {q0} vs {q})",
